@@ -39,6 +39,7 @@ ASSUMPTIONS = [
     "dict_compress=False (flag D) is exercised on a tenth of the random programs",
 ]
 MIN_COUNTERS = {
+    "name_programs": {"quick": 3000, "thorough": 3000},
     "contract_evaluations": {"quick": 20000, "thorough": 200000},
     "element_keys_in_positions": {"quick": 75, "thorough": 75},
     "brkrec_programs": {"quick": 600, "thorough": 600},
@@ -146,6 +147,8 @@ def units(tier, seed):
     if tier == "thorough":
         for p in range(N_ENUM_UNITS):
             u.append({"kind": "enum", "part": p, "of": N_ENUM_UNITS})
+    for p in range(4):
+        u.append({"kind": "names", "part": p, "of": 4})
     return u
 
 
@@ -491,6 +494,22 @@ def run_unit(unit):
     if kind == "ast":
         ast = F.from_json(unit["ast"])
         R.check_ast(ast, drops=[unit.get("drop", 0)], dcs=(unit.get("dc", True),), origin="replay")
+
+    elif kind == "names":
+        # names (function, parameter, loop variable) written with every code-page character that is
+        # not itself structure syntax: the sanitisers must leave something Python accepts
+        from vyxal import encoding
+
+        unsafe = set("|;:*[](){}@λƛ'µ⟨⟩`«»‛\\#\n→←k∆øÞ¨⁺ .°0123456789")
+        chars = [ch for ch in encoding.codepage if ch not in unsafe][unit["part"]::unit["of"]]
+        one = F.Lit("num", "1")
+        for ch in chars:
+            for name in ("a" + ch, ch + "b", "a" + ch + "b", ch, ch + ch):
+                for ast in ([F.FnDef(name, ["1"], [F.Elem("+")])], [F.FnDef(name, [], [one])], [F.FnCall(name)],
+                            [F.For(name, [F.Elem("+")])], [F.FnDef("f", [name], [F.Elem("+")])],
+                            [F.FnDef("f", ["2", name], [one])], [F.For(None, [F.FnCall(name)])]):
+                    R.check_ast(ast, drops="all", origin="name with code-page character")
+                    R.count("name_programs")
 
     elif kind == "positions":
         thorough = unit.get("tier") == "thorough"
